@@ -32,6 +32,8 @@ type gateWorldT struct {
 	valueUse  map[*ssa.Function]bool
 	ifaceMeth map[string]bool
 	plain     map[*ssa.Function]*mustResult
+	// creation sites of bound-method wrappers (`f := c.method`)
+	boundAt map[*ssa.Function][]*ssa.MakeClosure
 }
 
 var gateWorld *gateWorldT
@@ -70,6 +72,10 @@ func world() *gateWorldT {
 			if mc, ok := i.(*ssa.MakeClosure); ok {
 				if f, ok := mc.Fn.(*ssa.Function); ok && f.Synthetic != "" {
 					w.valueUse[f] = true
+					if w.boundAt == nil {
+						w.boundAt = map[*ssa.Function][]*ssa.MakeClosure{}
+					}
+					w.boundAt[f] = append(w.boundAt[f], mc)
 				}
 			}
 		})
@@ -133,6 +139,12 @@ func okSummary(fn *ssa.Function) facts {
 				// success only if v may be nil
 				if certainlyNonNilErr(v, f) {
 					continue
+				}
+				// `return err` with err the error of a call: success means that call succeeded
+				if call, _ := callOf(v); call != nil {
+					if k := callKey(call); k != "" {
+						f = f.with("ok:" + k)
+					}
 				}
 			}
 		} else {
@@ -206,7 +218,21 @@ func entryContext(fn *ssa.Function) facts {
 		return w.entry[fn]
 	}
 	sites := callSitesOf(gateProg, fn)
-	if len(sites) == 0 {
+	// method values of fn (`sasl.NewPlainServer(c.authenticatePlain)`): the
+	// creation sites of its bound-method wrappers
+	var madeAt []*ssa.MakeClosure
+	for wrapper, mcs := range w.boundAt {
+		target := false
+		allInstrs(wrapper, func(i ssa.Instruction) {
+			if call, ok := i.(ssa.CallInstruction); ok && staticCallee(call) == fn {
+				target = true
+			}
+		})
+		if target {
+			madeAt = append(madeAt, mcs...)
+		}
+	}
+	if len(sites) == 0 && len(madeAt) == 0 {
 		w.entry[fn] = facts{}
 		return w.entry[fn]
 	}
@@ -214,6 +240,19 @@ func entryContext(fn *ssa.Function) facts {
 	defer delete(w.entryBusy, fn)
 	var acc facts
 	first := true
+	for _, mc := range madeAt {
+		// what held where the value was made (gate facts are history facts),
+		// as for a function literal
+		cf, cok := deepFlowOf(mc.Parent()).at(mc)
+		if !cok {
+			continue
+		}
+		if first {
+			acc, first = cf, false
+		} else {
+			acc = factsLattice.join(acc, cf)
+		}
+	}
 	for _, s := range sites {
 		caller := s.Parent()
 		var f facts
